@@ -1,18 +1,33 @@
-FIX_COMMITS = ["66c24f4", "e815a6e"]
+FIX_COMMITS = ["66c24f4", "e815a6e", "cc08809", "a93577e"]
 NOTES = ("Static-analysis family only: every verdict is computed from /repo's current source (type-checked HIR + MIR via a rustc driver); "
          "nothing executes riscv-analysis. Properties are behavioural universals; each check decides named structural clauses that are "
          "necessary conditions (see DESIGN.md section 4) and says what it does not decide.")
 TBD = "check not built yet in this round (planned, DESIGN.md section 4); not claimed until it runs green"
+TRUST = "Trusts the rustc nightly front end (HIR/MIR) and, where named, the reference tables in /verif/reference; pattern-extracting rules fail closed (UNEXTRACTABLE) if the code leaves its present idiom."
+def C(text, ref, technique, note=TRUST):
+    return {"text": text, "design_ref": ref, "technique": technique, "note": note}
 CHECKS = {
- "C08": {
-  "text": "Every row of the finite translation tables is examined on every run: operand-role table (30 rows), mnemonic tables (101 mnemonics x 5 tables), all 33 pseudo-instruction expansions and all operand forms of the 11 base formats are extracted by symbolic path enumeration of the decoder's HIR and compared with reference tables transcribed from the RISC-V assembly manual; folding operator table and totality of MathOp::operate. Not decided: that each folding arm computes the right function beyond totality/operand extension.",
-  "design_ref": "DESIGN.md section 4 C08",
-  "note": "Trusts the rustc front end and the reference tables in /verif/reference; the decoder must keep its idiom (match over Type / PseudoType with positional constructor calls) or the rule fails closed as UNEXTRACTABLE.",
-  "technique": "table agreement by symbolic extraction from type-checked HIR + reference tables",
- },
+ "C01": C("Decides four necessary conditions of a sound forward must-analysis in this code's idiom: value facts are written only by AvailableValuePass (who-may-call over the resolved call graph), the kill set and ra-at-calls are removed before out[n] is published, predecessors are met with the intersection operator only, (offset arithmetic totality is decided under C06). Does NOT decide that gen/rewrite rules yield true facts for all programs.",
+          "DESIGN.md section 4 C01", "who-may-call + ordering + operator identity over HIR/MIR"),
+ "C02": C("Operand-role table (30 rows), liveness fact ownership, meet = union, class-wide gen/kill at calls/returns/ecalls/entries, and all 31 ecall signature rows against the RARS reference. Does NOT decide minimality or the relation to executions.",
+          "DESIGN.md section 4 C02", "table agreement + who-may-call + operator identity"),
+ "C03": C("Edge sets are mutated only in mirror pairs (13 call sites of 6 discovered mutators), only by CFG-generation passes, exits are exactly ecalls {10,93}, fall-through is suppressed exactly after ret/unconditional jumps. Does NOT decide that every dynamic transfer is an edge.",
+          "DESIGN.md section 4 C03", "pairing + who-may-call + table rules over HIR/MIR"),
+ "C08": C("Every row of the finite translation tables is examined on every run: operand-role table (30 rows), mnemonic tables (101 mnemonics x 5 tables), all 33 pseudo-instruction expansions and all operand forms of the 11 base formats are extracted by symbolic path enumeration of the decoder's HIR and compared with reference tables transcribed from the RISC-V assembly manual; folding operator table. Not decided: that each folding arm computes the right function beyond totality/operand extension.",
+          "DESIGN.md section 4 C08", "table agreement by symbolic extraction from type-checked HIR + reference tables"),
+ "C11": C("Membership pairing in mark_reachable, annotation ownership, function = call target (calls_to table, call_names construction, entry-insertion guard), single exit with paired rewiring, overlap trigger. Does NOT decide exactness of membership for all graphs.",
+          "DESIGN.md section 4 C11", "pairing + who-may-call + guard extraction"),
+ "C12": C("No change flag is dropped in the two fixed-point loops (16 setter calls), replace_if_changed contract, pipeline typestate of gen_full_cfg (every edge-mutating pass followed by a value analysis, liveness last), fact ownership. Does NOT decide that re-running a pass changes nothing (lattice argument).",
+          "DESIGN.md section 4 C12", "must-use-flow + typestate over the pass sequence"),
+ "C13": C("Each class of meaning-preserving respelling is absorbed by a table before analysis: case folding in the four from_str tables, 32x(numeric, ABI, alias) register spellings, separator set, radix table, pseudo-instruction = official expansion and optional-operand forms. Does NOT decide invariance of diagnostics under compositions of rewrites.",
+          "DESIGN.md section 4 C13", "table agreement + use-def of the case-folded argument"),
+ "C14": C("Equivariance holds iff nothing distinguishes class members except whole-class tables: class tables = psABI, class members are named only inside Register's own impls (114 mention sites), six 32-row bijections, RegisterSet bit index = to_num, no literal label names.",
+          "DESIGN.md section 4 C14", "table agreement + who-may-mention"),
+ "C19": C("Effective serde tags/field names read from derive-generated impls are injective and reader/writer agree (all derived types), hand-written MemoryLocation prefix tables agree with no shadowing, intermediate shapes agree, every CfgNode edge/fact/annotation field is covered by NodeWrapper, skipped fields are identity/location only. Does NOT decide round-trip equality for every value.",
+          "DESIGN.md section 4 C19", "writer/reader table agreement over derive-expanded HIR"),
 }
 NOT_APPLICABLE = {
  "C04": "precision over all convention-conforming programs is a universal over program behaviour and eleven lint conditions; no structural clause beyond tables decided under C14 and C02",
 }
-for p in ["C01","C02","C03","C05","C06","C07","C09","C10","C11","C12","C13","C14","C15","C16","C17","C18","C19"]:
+for p in ["C05","C06","C07","C09","C10","C15","C16","C17","C18"]:
     NOT_APPLICABLE[p] = TBD
